@@ -99,6 +99,10 @@ impl Caret {
         buf.reset_terminal();
         buf.layers[current_layer].clear();
         buf.stop_sixel_threads();
+        if buf.is_terminal_buffer {
+            // drop the scrollback like clear_screen does, so that row 0 is the first visible row again
+            buf.set_size(buf.terminal_state.get_size());
+        }
         self.pos = Position::default();
         self.set_is_visible(true);
         self.reset_color_attribute();
